@@ -7,7 +7,7 @@
    reported value (Automation.value: clipped / wrapped).  The number of ticks of a move is
    [duration_ticks tpb d] = ceil(round(d / tick_duration, 8)), and a move of 0 ticks takes 1 tick. *)
 From Isobar Require Import Base.Prelude Auto.Automation Auto.Lfo Auto.AutomationProofs Auto.LfoProofs.
-From Isobar Require Import Auto.Retime Auto.RetimeProofs Auto.Targets Auto.TargetsProofs.
+From Isobar Require Import Auto.Retime Auto.RetimeProofs Auto.Targets Auto.TargetsProofs Auto.Readers Auto.ReadersProofs.
 From Coq Require Import QArith Qround Qabs Qreduction Lqa.
 Local Open Scope Q_scope.
 
@@ -674,3 +674,92 @@ Example C18_bindings_equal_targets_nonvacuous :
     (ra_run (24%Z, a) (bind_ops ts ++ [RA (OMoveTo 8 (Some 0) (1 # 2))]))
   = Some [(10%Z, 5); (11%Z, 5); (12%Z, 5); (13%Z, 5); (14%Z, 5)].
 Proof. vm_compute. reflexivity. Qed.
+
+(** * The LFO is read through patterns while it keeps running (FIX-C18, third round): PLFO inside expressions,
+   PConcatenate, PReset, PPingPong, finite wrappers, the event stream of a track; the readers are advanced, reset,
+   drained by all() / len(), constructed, the tracks reset by Timeline.schedule(<Track>) / Timeline.reset().
+   In Auto/Readers.v every pattern operation threads the LFO through, so "the operation wrote to the LFO" is expressible. *)
+
+(* a reader is a pure observer: every pattern operation (next / reset / all, i.e. len) on every reader tree, and every
+   construction, for every amount of fuel and whatever the outcome, leaves the LFO exactly as it found it; and what it
+   returns and what the tree becomes depends on the LFO only through lfo.value at that moment *)
+Theorem C18_reader_pure_observer : forall fuel c r s l,
+  snd (rd_run fuel c r l) = l
+  /\ snd (build fuel s l) = l
+  /\ (forall l', l_value l = l_value l' ->
+        fst (rd_run fuel c r l) = fst (rd_run fuel c r l') /\ fst (build fuel s l) = fst (build fuel s l')).
+Proof.
+  intros fuel c r s l. destruct (rd_run_obs fuel c r l) as [A B]. destruct (build_obs fuel s l) as [C D].
+  split; [exact A|]. split; [exact C|]. intros l' H. split; [apply B, H|apply D, H].
+Qed.
+Print Assumptions C18_reader_pure_observer.
+
+(* "reads as a pattern with that same value": next(PLFO(lfo)) is lfo.value at that moment (and the reader stays a
+   PLFO); an arithmetic expression yields the operator applied to what its operands yield at that moment *)
+Theorem C18_reader_reads_value : forall fuel l,
+  rd_run (S fuel) CNext RdLfo l = ((RVal (lfo_value l), RdLfo), l)
+  /\ (forall o a b va a' vb b',
+        fst (rd_run fuel CNext a l) = (RVal va, a') -> fst (rd_run fuel CNext b l) = (RVal vb, b') ->
+        rd_run (S fuel) CNext (RdBin o a b) l = ((RVal (binop_apply o va vb), RdBin o a' b'), l)).
+Proof. intros fuel l. split; [reflexivity|]. intros. apply rd_next_bin; assumption. Qed.
+Print Assumptions C18_reader_reads_value.
+
+Section SineReaders.
+  Variable sin2pi : Q -> Q.
+  Hypothesis sin_range : forall x, -1 <= sin2pi x <= 1.
+  Hypothesis sin_period : forall x, sin2pi (x + 1) == sin2pi x.
+  Hypothesis sin_proper : forall x y, x == y -> sin2pi x == sin2pi y.
+
+  (* over whole histories — timeline ticks interleaved in any way with next / reset / all on any of several readers of
+     the one LFO, constructions of new readers, events and resets of tracks, Timeline.reset —: the LFO (clock, value,
+     configuration) is EXACTLY the LFO of the tick-only history; hence it is in range after every tick, its value is
+     the waveform at (clock at the start) + (number of ticks) / tpb, and it repeats every p ticks when
+     p * frequency = tpb, however many pattern operations happened in between *)
+  Theorem C18_readers_history : forall fuel tpb w ops,
+    w_lfo (w_run sin2pi fuel tpb w ops) = lfo_ticks sin2pi tpb (w_ticks ops) (w_lfo w)
+    /\ (let l' := w_lfo (w_run sin2pi fuel tpb w (ops ++ [WTick])) in
+        l_min (w_lfo w) <= l_max (w_lfo w) -> l_min (w_lfo w) <= lfo_value l' <= l_max (w_lfo w))
+    /\ l_value (w_lfo (w_run sin2pi fuel tpb w (ops ++ [WTick])))
+        == lfo_wave sin2pi (l_freq (w_lfo w)) (l_min (w_lfo w)) (l_max (w_lfo w))
+                    (l_time (w_lfo w) + qnat (S (w_ticks ops)) * (1 / inject_Z tpb))
+    /\ (forall ops2 (p : nat), (0 < tpb)%Z -> qnat p * l_freq (w_lfo w) == inject_Z tpb ->
+        w_ticks ops2 = (S (w_ticks ops) + p)%nat ->
+        lfo_value (w_lfo (w_run sin2pi fuel tpb w ops2)) == lfo_value (w_lfo (w_run sin2pi fuel tpb w (ops ++ [WTick])))).
+  Proof.
+    intros fuel tpb w ops.
+    assert (T : w_ticks (ops ++ [WTick]) = S (w_ticks ops)) by (rewrite w_ticks_app; cbn; lia).
+    split; [apply w_run_lfo|]. split; [|split].
+    - cbv zeta. rewrite w_run_lfo, T. intros H. apply lfo_range_from; assumption.
+    - rewrite w_run_lfo, T. apply lfo_value_after; assumption.
+    - intros ops2 p Ht Hp H2. rewrite !w_run_lfo, T, H2. apply lfo_periodic_from; assumption.
+  Qed.
+
+  (* what a PLFO reader yields at any point of such a history is the value the tick-only LFO has at that point *)
+  Theorem C18_readers_read_in_history : forall fuel tpb w ops i,
+    nth_error (w_readers (w_run sin2pi (S fuel) tpb w ops)) i = Some RdLfo ->
+    snd (w_step sin2pi (S fuel) tpb (w_run sin2pi (S fuel) tpb w ops) (WCmd i CNext))
+      = RVal (lfo_value (lfo_ticks sin2pi tpb (w_ticks ops) (w_lfo w))).
+  Proof.
+    intros fuel tpb w ops i H. cbn [w_step]. rewrite H. cbn [rd_run]. unfold bind, read_value, ret. cbn [snd].
+    rewrite w_run_lfo. reflexivity.
+  Qed.
+End SineReaders.
+Print Assumptions C18_readers_history.
+Print Assumptions C18_readers_read_in_history.
+
+(* one square-wave LFO 0..1 (frequency 2, 8 ticks per beat: period 4 ticks) read by three readers: a PLFO, the
+   finite expression PLFO * 10 + PSequence([1, 2, 3], 1) (drained by all(): it resets), and PPingPong over that
+   expression, constructed mid-cycle (when the value is 0); a track whose event stream holds PReset(PLFO, PSequence([0, 1])).  Operations
+   and ticks interleaved: the values read are the value at that moment, and the LFO is that of 5 plain ticks *)
+Example C18_readers_nonvacuous :
+  let e := SBin BAdd (SBin BMul SLfo (SConst 10)) (SSeq [1; 2; 3] false) in
+  let w0 := mkWorld (new_lfo 2 0 1) [] [[RdReset RdLfo (RdSeq [0; 1] true 0)]] in
+  let ops := [WBuild SLfo; WBuild e; WTick; WCmd 0 CNext; WCmd 1 (CAll 100); WTick; WTick; WBuild (SPingPong e 2);
+              WCmd 2 CNext; WTrackNext 0; WTimelineReset; WTick; WCmd 2 (CAll 100); WTrackReset 0; WCmd 1 CReset; WTick; WCmd 0 CNext] in
+  let run := fix go (w : world) (os : list wop) : list res :=
+               match os with [] => [] | o :: r => let '(w1, x) := w_step square 200 8 w o in x :: go w1 r end in
+  run w0 ops = [RUnit; RUnit; RUnit; RVal (2 # 2); RList [11; 12; 13]; RUnit; RUnit; RUnit;
+                RVal 1; RList [0 # 2]; RUnit; RUnit; RList [2; 3; 2; 1; 2; 3; 2; 1]; RUnit; RUnit; RUnit; RVal (2 # 2)]
+  /\ w_lfo (w_run square 200 8 w0 ops) = lfo_ticks square 8 5 (new_lfo 2 0 1)
+  /\ w_ticks ops = 5%nat.
+Proof. vm_compute. repeat split. Qed.
